@@ -77,6 +77,7 @@ class World:
         self.file_counter = 0
         self.clock = None
         self.last_outcome = ''
+        self.last_event = None
         self.trace = []          # short human-readable outcome per event
         from . import store
         store.install_clock()
@@ -167,13 +168,18 @@ class World:
     def check_all(self):
         """always-on invariants over every slot (DESIGN 3.3)"""
         probe = self.absent_id()
+        last = self.last_event or {}
+        tag = '%s:%s' % (last.get('k', '?'), last.get('name', ''))
         for i, s in enumerate(self.pool):
             msg = coherence(s.real, probe)
             if msg:
                 self.fail('coherence', 'slot %d: %s' % (i, msg))
             d = diff_ref(Snap(s.real), s.ref)
             if d:
-                self.fail('bystander.changed', 'slot %d: %s' % (i, d))
+                self.fail('bystander.changed', 'slot %d after %s: %s'
+                          % (i, tag, d))
+            self.case('bystander.changed', tag, s, pool=len(self.pool))
+            self.probe_count['coherence'] += 1
         self.check_errprofile()
         # every property's domain is finite values: a table that overflowed
         # to inf/nan through arithmetic leaves the simulation
@@ -205,6 +211,7 @@ class World:
     def execute(self, ev):
         from . import ops, ops2, reads, probes  # noqa
         self.evidx += 1
+        self.last_event = ev
         k = ev['k']
         self.stats['event.' + k] += 1
         if k == 'new':
